@@ -101,6 +101,8 @@ fn site_of_panic(msg: &str) -> &'static str {
         "ifMissing"
     } else if has("donedata-Option not initialized") {
         "contentNoDonedata"
+    } else if has("XML invalid") {
+        "rawEndTagNotFound"
     } else if has("Option::unwrap()") {
         "unwrap"
     } else {
@@ -121,6 +123,9 @@ struct Ctx<'a> {
     rep: &'a mut Report,
     dir: PathBuf,
     serial: u64,
+    /// how often each signature was reported (the report keeps a bounded list: a frequent known
+    /// finding must not crowd out a different failure)
+    sigs: std::collections::BTreeMap<String, u64>,
 }
 
 impl<'a> Ctx<'a> {
@@ -178,6 +183,17 @@ impl<'a> Ctx<'a> {
             self.rep.disagree(json!({"origin": origin, "variant": variant, "xml": xml, "impl": imp.brief(), "model": mdl.brief()}));
         }
         same
+    }
+    /// property failure on the implementation; at most three records per signature
+    fn fail(&mut self, sig: &str, v: Value) {
+        let n = self.sigs.entry(sig.to_string()).or_insert(0);
+        *n += 1;
+        if *n <= 3 {
+            self.rep.oracle_fail(sig, v);
+        } else {
+            self.rep.count("oracle_failures_not_recorded_again");
+        }
+        self.rep.count(&format!("finding_{}", sig.split(':').take(3).collect::<Vec<_>>().join(":")));
     }
     fn oracle(&mut self, dump: &str, t: &Doc) -> (bool, String) {
         let a = self.model.ask(&format!("reader oracle {} {}", dump, sx_doc(t)));
@@ -327,7 +343,7 @@ fn check_doc(ctx: &mut Ctx, t: &Doc, origin: &Value, seed: u64) {
     let d0 = match &i0 {
         Out::Ok(d) => d.clone(),
         other => {
-            ctx.rep.oracle_fail("C04:reject:canonical", json!({"origin": origin, "variant": "canonical", "xml": r0.xml, "impl": other.brief()}));
+            ctx.fail("C04:reject:canonical", json!({"origin": origin, "variant": "canonical", "xml": r0.xml, "impl": other.brief()}));
             return;
         }
     };
@@ -353,13 +369,13 @@ fn check_doc(ctx: &mut Ctx, t: &Doc, origin: &Value, seed: u64) {
         } else if !raw_kinds.is_empty() && ctx.oracle(dump, t_raw).0 {
             format!("C04:raw-child-text:{}", kinds)
         } else if nl > 0 && !raw_kinds.is_empty() && ctx.oracle(dump, &trl).0 {
-            ctx.rep.oracle_fail("C04:dropped:log-without-expr", json!({"origin": origin, "variant": variant, "xml": xml}));
+            ctx.fail("C04:dropped:log-without-expr", json!({"origin": origin, "variant": variant, "xml": xml}));
             format!("C04:raw-child-text:{}", kinds)
         } else {
             format!("C04:mirror:{}", variant)
         };
         let parts: Vec<&str> = ans.splitn(3, ' ').collect();
-        ctx.rep.oracle_fail(
+        ctx.fail(
             &sig,
             json!({"origin": origin, "variant": variant, "xml": xml,
                    "decompiled": parts.get(1).map(|s| pretty(s)), "normalised": parts.get(2).map(|s| pretty(s))}),
@@ -369,7 +385,7 @@ fn check_doc(ctx: &mut Ctx, t: &Doc, origin: &Value, seed: u64) {
     let _ = nlogs;
     classify(ctx, &d0, t, &t0, &kinds0, "canonical", &r0.xml);
     if ctx.model.ask(&format!("reader docorder {}", d0)) != "1" {
-        ctx.rep.oracle_fail("C04:docorder", json!({"origin": origin, "variant": "canonical", "xml": r0.xml, "dump": pretty(&d0)}));
+        ctx.fail("C04:docorder", json!({"origin": origin, "variant": "canonical", "xml": r0.xml, "dump": pretty(&d0)}));
     }
 
     // ---- (i) lexical variants
@@ -388,7 +404,7 @@ fn check_doc(ctx: &mut Ctx, t: &Doc, origin: &Value, seed: u64) {
         match &i {
             Out::Ok(d) if *d == d0 => {}
             Out::Ok(d) => {
-                ctx.rep.oracle_fail(
+                ctx.fail(
                     &format!("C04:metamorphic:{}", name),
                     json!({"origin": origin, "variant": name, "xml": r.xml, "canonical_xml": r0.xml, "dump": pretty(d), "canonical_dump": pretty(&d0)}),
                 );
@@ -399,7 +415,7 @@ fn check_doc(ctx: &mut Ctx, t: &Doc, origin: &Value, seed: u64) {
                 } else {
                     format!("C04:metamorphic:{}:rejected", name)
                 };
-                ctx.rep.oracle_fail(&sig, json!({"origin": origin, "variant": name, "xml": r.xml, "impl": other.brief()}));
+                ctx.fail(&sig, json!({"origin": origin, "variant": name, "xml": r.xml, "impl": other.brief()}));
             }
         }
     }
@@ -420,7 +436,7 @@ fn check_doc(ctx: &mut Ctx, t: &Doc, origin: &Value, seed: u64) {
             } else {
                 format!("C04:empty-pair-form:{}", sens.iter().cloned().collect::<Vec<_>>().join("+"))
             };
-            ctx.rep.oracle_fail(&sig, json!({"origin": origin, "variant": "pair-empty-raw", "xml": r.xml, "impl": i.brief()}));
+            ctx.fail(&sig, json!({"origin": origin, "variant": "pair-empty-raw", "xml": r.xml, "impl": i.brief()}));
         }
     }
 
@@ -440,7 +456,7 @@ fn check_doc(ctx: &mut Ctx, t: &Doc, origin: &Value, seed: u64) {
                 Out::Ok(d) => {
                     classify(ctx, d, t, &t0, &kinds0, "initial-form", &r.xml);
                 }
-                other => ctx.rep.oracle_fail("C04:metamorphic:initial-form:rejected", json!({"origin": origin, "xml": r.xml, "impl": other.brief()})),
+                other => ctx.fail("C04:metamorphic:initial-form:rejected", json!({"origin": origin, "xml": r.xml, "impl": other.brief()})),
             }
         }
         if !has_anonymous(t) {
@@ -455,10 +471,10 @@ fn check_doc(ctx: &mut Ctx, t: &Doc, origin: &Value, seed: u64) {
                 Out::Ok(d) => {
                     classify(ctx, d, t, &t0, &kinds0, "children-order", &r.xml);
                     if ctx.model.ask(&format!("reader docorder {}", d)) != "1" {
-                        ctx.rep.oracle_fail("C04:docorder", json!({"origin": origin, "variant": "children-order", "xml": r.xml}));
+                        ctx.fail("C04:docorder", json!({"origin": origin, "variant": "children-order", "xml": r.xml}));
                     }
                 }
-                other => ctx.rep.oracle_fail("C04:metamorphic:children-order:rejected", json!({"origin": origin, "xml": r.xml, "impl": other.brief()})),
+                other => ctx.fail("C04:metamorphic:children-order:rejected", json!({"origin": origin, "xml": r.xml, "impl": other.brief()})),
             }
         }
     }
@@ -490,7 +506,7 @@ fn check_doc(ctx: &mut Ctx, t: &Doc, origin: &Value, seed: u64) {
                 Out::Ok(d) => {
                     classify(ctx, d, t, &tr, &kinds, &name, &r.xml);
                 }
-                other => ctx.rep.oracle_fail(&format!("C04:metamorphic:{}:rejected", name), json!({"origin": origin, "xml": r.xml, "impl": other.brief()})),
+                other => ctx.fail(&format!("C04:metamorphic:{}:rejected", name), json!({"origin": origin, "xml": r.xml, "impl": other.brief()})),
             }
         }
     }
@@ -689,14 +705,14 @@ fn malformed() -> Vec<(&'static str, XNode)> {
         ("unknown-element-in-onentry", sc(vec![s("a", vec![oe(vec![el("foo", vec![], vec![el("bar", vec![], vec![])]), el("log", vec![at("expr", "1")], vec![])])])])),
         ("state-outside-scxml", s("a", vec![])),
         ("onentry-in-scxml", sc(vec![oe(vec![])])),
-        ("data-without-id", sc(vec![el("datamodel", vec![], vec![XNode { name: "data".into(), attrs: vec![at("expr", "1")], kids: vec![], raw: true }])])),
-        ("data-expr-and-text", sc(vec![el("datamodel", vec![], vec![XNode { name: "data".into(), attrs: vec![at("id", "d"), at("expr", "1")], kids: vec![XKid::Text("2".into())], raw: true }])])),
-        ("data-outside-datamodel", sc(vec![XNode { name: "data".into(), attrs: vec![at("id", "d")], kids: vec![], raw: true }])),
-        ("assign-expr-and-text", sc(vec![s("a", vec![oe(vec![XNode { name: "assign".into(), attrs: vec![at("location", "x"), at("expr", "1")], kids: vec![XKid::Text("2".into())], raw: true }])])])),
-        ("assign-without-location", sc(vec![s("a", vec![oe(vec![XNode { name: "assign".into(), attrs: vec![at("expr", "1")], kids: vec![], raw: true }])])])),
-        ("content-expr-and-text", sc(vec![s("a", vec![oe(vec![el("send", vec![], vec![])])]), el("final", vec![at("id", "f")], vec![el("donedata", vec![], vec![XNode { name: "content".into(), attrs: vec![at("expr", "1")], kids: vec![XKid::Text("2".into())], raw: true }])])])),
-        ("content-in-onentry", sc(vec![s("a", vec![oe(vec![XNode { name: "content".into(), attrs: vec![], kids: vec![], raw: true }])])])),
-        ("script-in-state", sc(vec![s("a", vec![XNode { name: "script".into(), attrs: vec![], kids: vec![XKid::Text("x".into())], raw: true }])])),
+        ("data-without-id", sc(vec![el("datamodel", vec![], vec![XNode { name: "data".into(), attrs: vec![at("expr", "1")], kids: vec![], raw: true, pair: false }])])),
+        ("data-expr-and-text", sc(vec![el("datamodel", vec![], vec![XNode { name: "data".into(), attrs: vec![at("id", "d"), at("expr", "1")], kids: vec![XKid::Text("2".into())], raw: true, pair: false }])])),
+        ("data-outside-datamodel", sc(vec![XNode { name: "data".into(), attrs: vec![at("id", "d")], kids: vec![], raw: true, pair: false }])),
+        ("assign-expr-and-text", sc(vec![s("a", vec![oe(vec![XNode { name: "assign".into(), attrs: vec![at("location", "x"), at("expr", "1")], kids: vec![XKid::Text("2".into())], raw: true, pair: false }])])])),
+        ("assign-without-location", sc(vec![s("a", vec![oe(vec![XNode { name: "assign".into(), attrs: vec![at("expr", "1")], kids: vec![], raw: true, pair: false }])])])),
+        ("content-expr-and-text", sc(vec![s("a", vec![oe(vec![el("send", vec![], vec![])])]), el("final", vec![at("id", "f")], vec![el("donedata", vec![], vec![XNode { name: "content".into(), attrs: vec![at("expr", "1")], kids: vec![XKid::Text("2".into())], raw: true, pair: false }])])])),
+        ("content-in-onentry", sc(vec![s("a", vec![oe(vec![XNode { name: "content".into(), attrs: vec![], kids: vec![], raw: true, pair: false }])])])),
+        ("script-in-state", sc(vec![s("a", vec![XNode { name: "script".into(), attrs: vec![], kids: vec![XKid::Text("x".into())], raw: true, pair: false }])])),
         ("duplicate-state-id", sc(vec![s("a", vec![s("b", vec![])]), s("b", vec![el("transition", vec![at("target", "a")], vec![])])])),
         ("undeclared-target", sc(vec![s("a", vec![el("transition", vec![at("target", "nowhere")], vec![])])])),
         ("parallel-with-initial", sc(vec![el("parallel", vec![at("id", "p"), at("initial", "a")], vec![s("a", vec![]), s("b", vec![])])])),
@@ -739,7 +755,7 @@ pub fn run(args: &Args, model: &mut Model) -> Report {
     let dir = std::env::temp_dir().join(format!("reader-c04-{}", std::process::id()));
     std::fs::create_dir_all(&dir).unwrap();
     {
-        let mut ctx = Ctx { model, rep: &mut rep, dir: dir.clone(), serial: 0 };
+        let mut ctx = Ctx { model, rep: &mut rep, dir: dir.clone(), serial: 0, sigs: Default::default() };
         let run_gen = |ctx: &mut Ctx, seed: u64, index: u64| {
             let mut p = Prng::for_case(seed, index);
             let (d, stats) = {
